@@ -36,7 +36,7 @@ tvars == <<vars, l, pend, wev>>
 
 Ev == Trace[l]
 Relaxed == cfg.relaxed
-NoHead == [num |-> -1, incl |-> {}, rev |-> {}, energy |-> << >>, basefee |-> <<0, 0, 0>>, bf |-> "0", id |-> "none", refresh |-> FALSE, gala |-> FALSE, synced |-> FALSE]
+NoHead == [num |-> -1, incl |-> {}, rev |-> {}, energy |-> << >>, payers |-> << >>, basefee |-> <<0, 0, 0>>, bf |-> "0", id |-> "none", refresh |-> FALSE, gala |-> FALSE, synced |-> FALSE]
 
 Fresh(c) ==
   /\ cfg = c /\ txs = << >> /\ objs = << >> /\ byHash = << >> /\ byID = << >> /\ quota = << >> /\ cost = << >>
@@ -56,7 +56,7 @@ TxEv ==
   /\ txs' = Put(txs, Ev.h, Ev.tx)
   /\ UNCHANGED <<cfg, objs, byHash, byID, quota, cost, pub, head, blocked, tick, w, lastDrop, pend, wev>>
 
-HeadOf(r) == [num |-> r.num, incl |-> SeqSet(r.incl), rev |-> SeqSet(r.rev), energy |-> r.energy, basefee |-> r.basefee, bf |-> r.bf, id |-> r.id, refresh |-> r.refresh, gala |-> r.gala,
+HeadOf(r) == [num |-> r.num, incl |-> SeqSet(r.incl), rev |-> SeqSet(r.rev), energy |-> r.energy, payers |-> r.payers, basefee |-> r.basefee, bf |-> r.bf, id |-> r.id, refresh |-> r.refresh, gala |-> r.gala,
               synced |-> r.synced]
 HeadEv ==
   /\ Ev.e = "Head"
@@ -107,8 +107,8 @@ AddLockEv ==
                 /\ Ev.x = exec /\ Ev.priced = exec /\ Ev.src = p.src
                 /\ Ev.qo = At(quota', tx.org, 0)
                 /\ (tx.dlg # None => Ev.qd = At(quota', tx.dlg, 0))
-                /\ (exec => /\ Ev.cost = CostAt(tx, p.hd) /\ Ev.pay = Payer(tx) /\ PrioOK(Ev.prio, Ev.h, p.hd)
-                            /\ Ev.cp = At(cost', Payer(tx), 0)))
+                /\ (exec => /\ Ev.cost = CostAt(tx, p.hd) /\ Ev.pay = PayerAt(tx, p.hd) /\ PrioOK(Ev.prio, Ev.h, p.hd)
+                            /\ Ev.cp = At(cost', PayerAt(tx, p.hd), 0)))
   /\ UNCHANGED <<cfg, txs, pub, head, blocked, w, lastDrop, wev>>
 
 LockRes(v) == IF v \in {"ok", "dup"} THEN "ok" ELSE v
